@@ -660,7 +660,8 @@ fn run_c20(table: &'static [GrammarEntry], ctxs: &[(usize, GCtx)], cr: &CaseRunn
                 .map(|idxs| {
                     let work = &work;
                     let barrier = &barrier;
-                    s.spawn(move || {
+                    // deeply nested inputs need more than the default 2 MB thread stack
+                    std::thread::Builder::new().stack_size(512 << 20).spawn_scoped(s, move || {
                         barrier.wait();
                         let mut out = vec![];
                         // each thread walks its items twice (repetition)
@@ -672,6 +673,7 @@ fn run_c20(table: &'static [GrammarEntry], ctxs: &[(usize, GCtx)], cr: &CaseRunn
                         }
                         out
                     })
+                    .expect("spawn")
                 })
                 .collect();
             hs.into_iter().map(|h| h.join().unwrap()).collect()
